@@ -16,6 +16,7 @@ import (
 	"strconv"
 	"strings"
 	"sync"
+	"syscall"
 	"testing"
 	"unicode/utf8"
 
@@ -41,6 +42,9 @@ type toolCase struct {
 	// still write exactly the input lines. Outside the property's stated domain for a failing run:
 	// only a run that exits 0 is judged.
 	FaultTarget string `json:"fault_target,omitempty"`
+	// TmpElsewhere: run the tool with TMPDIR on another filesystem than its working directory
+	// (when the sandbox has one), as on machines where /tmp is a tmpfs.
+	TmpElsewhere bool `json:"tmp_elsewhere,omitempty"`
 }
 
 // in-process upstream server: /<case id>/<name>.txt
@@ -94,12 +98,31 @@ var toolSeq int
 
 // runTool runs the generator in a scratch directory against the given upstream files.
 func runTool(files map[string][]byte) (outDir string, cleanup func(), err error) {
-	return runToolIn("", files, "")
+	return runToolIn("", files, "", false)
+}
+
+// otherFilesystemDir returns a writable directory on a different device than dir ("" if none).
+func otherFilesystemDir(dir string) string {
+	var here syscall.Stat_t
+	if syscall.Stat(dir, &here) != nil {
+		return ""
+	}
+	for _, cand := range []string{"/dev/shm", "/run/shm", "/run", "/tmp", "/var/tmp"} {
+		var st syscall.Stat_t
+		if syscall.Stat(cand, &st) != nil || st.Dev == here.Dev {
+			continue
+		}
+		d, err := os.MkdirTemp(cand, "verif-c17-")
+		if err == nil {
+			return d
+		}
+	}
+	return ""
 }
 
 // runToolIn runs the tool in dir (a fresh scratch directory when empty); the first download of
 // faultTarget (if any) is cut half way.
-func runToolIn(dir string, files map[string][]byte, faultTarget string) (outDir string, cleanup func(), err error) {
+func runToolIn(dir string, files map[string][]byte, faultTarget string, tmpElsewhere bool) (outDir string, cleanup func(), err error) {
 	tool := os.Getenv("VERIF_TOOL")
 	if tool == "" {
 		harnessError("c17: VERIF_TOOL not set")
@@ -153,6 +176,13 @@ func runToolIn(dir string, files map[string][]byte, faultTarget string) (outDir 
 	cmd := exec.Command(tool)
 	cmd.Dir = dir
 	cmd.Env = append(os.Environ(), "BIP39_VERIF_WORDLIST_URL="+baseURL, "HTTP_PROXY=", "http_proxy=", "NO_PROXY=*")
+	if tmpElsewhere {
+		if other := otherFilesystemDir(dir); other != "" {
+			defer os.RemoveAll(other)
+			cmd.Env = append(cmd.Env, "TMPDIR="+other)
+			cov.Class("TMPDIR-on-another-filesystem")
+		}
+	}
 	var out bytes.Buffer
 	cmd.Stdout, cmd.Stderr = &out, &out
 	if runErr := cmd.Run(); runErr != nil {
@@ -317,7 +347,7 @@ var c17Check = register("C17", "c17.tool", func(c *toolCase) error {
 		dir = filepath.Dir(filepath.Dir(bdir))
 		sig += " rerun"
 	}
-	outDir, cleanup, err := runToolIn(dir, files, c.FaultTarget)
+	outDir, cleanup, err := runToolIn(dir, files, c.FaultTarget, c.TmpElsewhere)
 	defer cleanup()
 	if err != nil && c.FaultTarget != "" && upstream.err == nil {
 		return nil // the download was cut: aborting is what the unchanged tool does; nothing to judge
@@ -476,7 +506,7 @@ func TestC17_Tool(t *testing.T) {
 			}
 			long[l.File()] = gen.WordFile{Lines: lines, FinalNewline: true}
 		}
-		c := &toolCase{Kind: "canonical", Before: long}
+		c := &toolCase{Kind: "canonical", Before: long, TmpElsewhere: true}
 		c17Record(c)
 		cov.Class("rerun-over-existing-output")
 		judge(t, "c17.tool", c17Check, c)
@@ -505,6 +535,7 @@ func TestC17_Tool(t *testing.T) {
 			c.FaultTarget = ref.Lang(rapid.IntRange(0, int(ref.NumLangs)-1).Draw(rt, "fault-target")).File()
 			cov.Class("first-download-cut-half-way")
 		}
+		c.TmpElsewhere = rapid.IntRange(0, 3).Draw(rt, "tmp-elsewhere") == 0
 		c17Record(c)
 		if k++; k == 3 {
 			small := &toolCase{Kind: "files", Files: map[string]gen.WordFile{}}
